@@ -74,7 +74,8 @@ class Plan:
         self.assumptions = []
         self.trusted = ["Kani 0.68 MIR->GOTO translation", "CBMC 6.11 IEEE-754 bit-level float encoding",
                         "CaDiCaL (SAT)", "rustc (kani toolchain)"]
-        self.extra_builds = []   # additional (tag, plan-like) builds, e.g. --no-default-features
+        self.extra_builds = []
+        self.late = None         # callable(ctx, plan): add modules/harnesses once the native constants are known   # additional (tag, plan-like) builds, e.g. --no-default-features
 
 
 class Ctx:
@@ -103,12 +104,8 @@ def run_property(pid, tier, seed, jobs):
     exit_code = 0
     try:
         from . import native
-        for rel, text in plan.modules:
-            ov.append(rel, text)
-        for rel, text in plan.files:
-            ov.write(rel, text)
         native.install(ov)
-        if plan.native or plan.pre or plan.glue:
+        if plan.native or plan.pre or plan.glue or plan.late:
             try:
                 ctx.native_bin = native.build(ov, "dev")
             except engine.BuildError as e:
@@ -117,6 +114,18 @@ def run_property(pid, tier, seed, jobs):
         for f in plan.pre:
             if ctx.native_bin:
                 f(ctx)
+        if plan.late and ctx.native_bin:
+            # harnesses that embed constants extracted from the real code (K-lemmas) are generated now
+            plan.late(ctx, plan)
+        only = os.environ.get("VERIF_ONLY")     # developer aid: run a subset of the harnesses (never used by registered commands)
+        if only:
+            plan.harnesses = [h for h in plan.harnesses if re.search(only, h["name"])]
+            if os.environ.get("VERIF_NOGLUE"):
+                plan.glue = []
+        for rel, text in plan.modules:
+            ov.append(rel, text)
+        for rel, text in plan.files:
+            ov.write(rel, text)
         metas = {}
         if plan.harnesses:
             ov.seed_target("kani")
